@@ -184,6 +184,7 @@ def run(tier, rnd, out):
         for _, e in enc:
             if e in left: left.remove(e); io.append(e)
             else: io.append("not delivered (the callback got: %s)" % (left[:1] or "nothing more"))
+        if "ports" in kw: world.release_well_known_ports()
         lib.differential(out, label, cs, io, None, [e for _, e in enc], describe, sample=lambda c: describe(c)[:300], classify=lambda c, i: label)
     # nobody but the bridge holds the callback's owner (shared with C07), and a second bridge object is started on the port of a running one
     from props import c07
